@@ -137,7 +137,7 @@ bool Units::UnitsImpl::isBaseUnitWithHistory(History &history, const UnitsConstP
         ModelPtr model = importedSource->model();
         if (model != nullptr) {
             auto h = createHistoryEpoch(units, importeeModelUrl(history, mUnits->importSource()->url()));
-            if (checkForImportCycles(history, h)) {
+            if (checkForRepeatedEntity(history, h)) {
                 return false;
             }
             history.push_back(h);
@@ -179,7 +179,7 @@ bool Units::UnitsImpl::performTestWithHistory(History &history, std::vector<cons
         }
 
         auto h = createHistoryEpoch(units, importeeModelUrl(history, mUnits->importSource()->url()));
-        if (checkForImportCycles(history, h)) {
+        if (checkForRepeatedEntity(history, h)) {
             return false;
         }
 
